@@ -5,6 +5,7 @@ from ..framework import ob, Inconclusive
 from ..mirlib import Cmp, CallIs, VariantIn, BoolIs, OnlyIf, Site
 
 DG = r"^runtime::dependency_graph::DependencyGraph::"
+RT = r"^runtime::Runtime::"
 
 
 @ob("C19.6", ["C19", "C18", "C14"], "locks can be handed over transitively (c->b->a); an operation that rewrites wait-for edges, finds the thread to resume, or releases waiters only one level deep leaves deeper waiters with a stale owner: a missed cycle (deadlock) or a waiter that is never resumed", kind="MUSTCALL (recursion over the transfer tree)")
@@ -131,3 +132,24 @@ def c18_7(cx):
     same = CallIs(r"^std::cmp::PartialEq::eq$", True, [r"OccupiedEntry::<'a, K, V, A>::get\(", r"^tuple\{0: .*, 1: \$4\}$"], desc="same (thread, owner) as before (no-op)")
     for c, what in ((ut, "the new owner is resumed"), (ue, "dependents are re-pointed")):
         cx.skipped_only_if(tl, c, [vac, same], "after a RE-transfer %s regardless of the recorded threads (they may be stale)" % what, exits=tl.return_blocks())
+
+
+@ob("C18.8", ["C18", "C19", "C14"], "a thread that the owner of a transferred query is (transitively) blocked on IS the effective owner: if it had to wait for the recorded owner instead, both would wait for each other (deadlock), or it would restart the query with a fresh initial value while the cycle is still running", kind="ONLYIF (three-way verdict of block_transferred)")
+def c18_8(cx):
+    """Runtime::block_transferred: Released only if the transfer chain resolves to no owner thread; OwnedBy(other) only if the owner thread is neither the current thread nor (transitively) blocked on it; the blocking handle names the resolved owner thread, the query asked and the current thread; the dependency-graph lock is taken first and travels inside the handle."""
+    b = cx.fn(RT + r"block_transferred$")
+    owner = r"DependencyGraph::thread_id_of_transferred_query\(.*, \$2, Option::None\{\}\)"
+    for s in cx.sites(b.aggregates(r"BlockTransferredResult$", "Released"), 1, "Released"):
+        cx.only_if(b, s, VariantIn(owner + r"$", {"None"}, desc="no owner thread recorded"), "Released only if the transferred query has no owner any more")
+    ob = cx.sites(b.aggregates(r"BlockTransferredResult$", "OwnedBy"), 1, "OwnedBy")
+    for s in ob:
+        cx.only_if(b, s, Cmp(owner + r"@Some\.0$", "!=", r"^\$3$", desc="owner thread != current thread"), "a thread never waits for a transferred query it owns itself")
+        cx.only_if(b, s, CallIs(r"DependencyGraph::depends_on$", False, desc="the owner is not blocked on the current thread"), "nor for one whose owner is (transitively) blocked on it")
+    dep = cx.one_call(b, r"DependencyGraph::depends_on$", "depends_on in block_transferred")
+    a = cx.args(dep)
+    cx.flow(b, a[1], [owner + r"@Some\.0$"], [r"^\$3$"], "the wait-for question is asked FROM the owner thread", dep)
+    cx.flow(b, a[2], [r"^\$3$"], [], "TO the current thread", dep)
+    agg = cx.one(b.aggregates(r"BlockOnTransferredOwner$"), "BlockOnTransferredOwner aggregate")
+    o = b._origin_def(agg, "assign", agg.node(), 0, None, ())
+    cx.flow(b, o, [r"database_key: \$2, other_id: [\w:]*" + owner + r"@Some\.0, thread_id: \$3\}$"], [r"other_id: \$3"], "the handle blocks the current thread on the resolved owner thread for the query asked", agg)
+    cx.flow(b, o, [r"^BlockOnTransferredOwner\{dg: parking_lot::lock_api::Mutex::<R, T>::lock\(\$1\.dependency_graph\)"], [], "and carries the dependency-graph guard taken at entry", agg)
